@@ -112,6 +112,15 @@ def switch_decisions(body, bb):
     arms, otherwise = t[2], t[3]
     l = op_local(discr)
     if l is None:
+        if discr[0] in ("cp", "mv") and len(t) > 4 and t[4] == "bool":
+            r = root_of(body, discr)
+            if r is not None and r[0] in ("arg", "local"):
+                atom = ("flag", r)
+                res = [(b, atom + (bool(int(v)),)) for v, b in arms]
+                vals = [int(v) for v, _ in arms]
+                if len(vals) == 1:
+                    res.append((otherwise, atom + (not bool(vals[0]),)))
+                return res
         return None
     # discriminant(place) ?
     place = None
@@ -135,6 +144,12 @@ def switch_decisions(body, bb):
         res.append((otherwise, ("variant_not", r, tuple(listed))))
         return res
     atom = bool_atom(body, discr)
+    if atom is None:
+        # a plain bool flag (field / parameter / named variable)
+        if t[4] == "bool" if len(t) > 4 else False:
+            r = root_of(body, discr)
+            if r is not None and r[0] in ("arg", "local"):
+                atom = ("flag", r)
     if atom is None:
         return None
     res = []
